@@ -208,6 +208,9 @@ impl P {
 }
 impl Clone for P {
     fn clone(&self) -> P {
+        // a "slow clone": the broadcast channel clones the value out of its slot, and whatever the channel
+        // does between granting access to the slot and the end of the clone is a window another thread can use
+        loom::thread::yield_now();
         let v = self.cell.with(|c| unsafe { *c });
         ledger_bump(self.id, true);
         let p = P { id: self.id, cell: loom::cell::UnsafeCell::new(0) };
@@ -244,6 +247,8 @@ pub fn executions_so_far() -> u64 {
 }
 pub fn begin_execution() -> u64 {
     exec_reset();
+    // hook H10: shadow loom cells of the channels' payload slots belong to one loom execution
+    fibre::verif_shadow_reset();
     let mut s = lock(&STATS);
     let s = s.as_mut().expect("stats");
     s.executions += 1;
